@@ -20,31 +20,81 @@ EXTENDS Integers, Sequences, FiniteSets, TLC
 \* ------------------------------------------------------------------ 256-bit naturals
 B == 65536
 ND == 17                                                        \* 16 digits = 256 bits, one more for the carry of a sum
-Zero == [i \in 1..ND |-> 0]
-FromInt(n) == [i \in 1..ND |-> IF i = 1 THEN n % B ELSE IF i = 2 THEN n \div B ELSE 0]           \* 0 <= n < 2^31
-Pow2(e) == [i \in 1..ND |-> IF i = (e \div 16) + 1 THEN 2 ^ (e % 16) ELSE 0]
-Ones(k) == [i \in 1..ND |-> IF i <= k THEN B - 1 ELSE 0]                                         \* 2^(16k) - 1
+Zero == <<0, 0, 0, 0, 0, 0, 0, 0, 0, 0, 0, 0, 0, 0, 0, 0, 0>>
+FromInt(n) == <<n % B, n \div B, 0, 0, 0, 0, 0, 0, 0, 0, 0, 0, 0, 0, 0, 0, 0>>                   \* 0 <= n < 2^31
+Tup(f) == <<f[1], f[2], f[3], f[4], f[5], f[6], f[7], f[8], f[9], f[10], f[11], f[12], f[13], f[14], f[15], f[16], f[17]>>
+Pow2(e) == Tup([i \in 1..ND |-> IF i = (e \div 16) + 1 THEN 2 ^ (e % 16) ELSE 0])
+Ones(k) == Tup([i \in 1..ND |-> IF i <= k THEN B - 1 ELSE 0])                                    \* 2^(16k) - 1
+\* (unrolled: TLC evaluates LET definitions once and tuples eagerly - a recursive definition costs 50 times as much)
 AddD(x, y) ==
-  LET c[i \in 0..ND] == IF i = 0 THEN 0 ELSE (x[i] + y[i] + c[i - 1]) \div B
-  IN [i \in 1..ND |-> (x[i] + y[i] + c[i - 1]) % B]
+  LET c1 == (x[1] + y[1]) \div B
+      c2 == (x[2] + y[2] + c1) \div B
+      c3 == (x[3] + y[3] + c2) \div B
+      c4 == (x[4] + y[4] + c3) \div B
+      c5 == (x[5] + y[5] + c4) \div B
+      c6 == (x[6] + y[6] + c5) \div B
+      c7 == (x[7] + y[7] + c6) \div B
+      c8 == (x[8] + y[8] + c7) \div B
+      c9 == (x[9] + y[9] + c8) \div B
+      c10 == (x[10] + y[10] + c9) \div B
+      c11 == (x[11] + y[11] + c10) \div B
+      c12 == (x[12] + y[12] + c11) \div B
+      c13 == (x[13] + y[13] + c12) \div B
+      c14 == (x[14] + y[14] + c13) \div B
+      c15 == (x[15] + y[15] + c14) \div B
+      c16 == (x[16] + y[16] + c15) \div B
+  IN <<(x[1] + y[1]) % B,
+       (x[2] + y[2] + c1) % B,
+       (x[3] + y[3] + c2) % B,
+       (x[4] + y[4] + c3) % B,
+       (x[5] + y[5] + c4) % B,
+       (x[6] + y[6] + c5) % B,
+       (x[7] + y[7] + c6) % B,
+       (x[8] + y[8] + c7) % B,
+       (x[9] + y[9] + c8) % B,
+       (x[10] + y[10] + c9) % B,
+       (x[11] + y[11] + c10) % B,
+       (x[12] + y[12] + c11) % B,
+       (x[13] + y[13] + c12) % B,
+       (x[14] + y[14] + c13) % B,
+       (x[15] + y[15] + c14) % B,
+       (x[16] + y[16] + c15) % B,
+       (x[17] + y[17] + c16) % B>>
 CmpD(x, y) ==                                                   \* -1, 0, 1
-  LET r[i \in 0..ND] == IF i = 0 THEN 0 ELSE IF x[i] < y[i] THEN -1 ELSE IF x[i] > y[i] THEN 1 ELSE r[i - 1]
-  IN r[ND]
+  IF x[17] # y[17] THEN (IF x[17] < y[17] THEN -1 ELSE 1) ELSE
+  IF x[16] # y[16] THEN (IF x[16] < y[16] THEN -1 ELSE 1) ELSE
+  IF x[15] # y[15] THEN (IF x[15] < y[15] THEN -1 ELSE 1) ELSE
+  IF x[14] # y[14] THEN (IF x[14] < y[14] THEN -1 ELSE 1) ELSE
+  IF x[13] # y[13] THEN (IF x[13] < y[13] THEN -1 ELSE 1) ELSE
+  IF x[12] # y[12] THEN (IF x[12] < y[12] THEN -1 ELSE 1) ELSE
+  IF x[11] # y[11] THEN (IF x[11] < y[11] THEN -1 ELSE 1) ELSE
+  IF x[10] # y[10] THEN (IF x[10] < y[10] THEN -1 ELSE 1) ELSE
+  IF x[9] # y[9] THEN (IF x[9] < y[9] THEN -1 ELSE 1) ELSE
+  IF x[8] # y[8] THEN (IF x[8] < y[8] THEN -1 ELSE 1) ELSE
+  IF x[7] # y[7] THEN (IF x[7] < y[7] THEN -1 ELSE 1) ELSE
+  IF x[6] # y[6] THEN (IF x[6] < y[6] THEN -1 ELSE 1) ELSE
+  IF x[5] # y[5] THEN (IF x[5] < y[5] THEN -1 ELSE 1) ELSE
+  IF x[4] # y[4] THEN (IF x[4] < y[4] THEN -1 ELSE 1) ELSE
+  IF x[3] # y[3] THEN (IF x[3] < y[3] THEN -1 ELSE 1) ELSE
+  IF x[2] # y[2] THEN (IF x[2] < y[2] THEN -1 ELSE 1) ELSE
+  IF x[1] # y[1] THEN (IF x[1] < y[1] THEN -1 ELSE 1) ELSE
+  0
 LeqD(x, y) == CmpD(x, y) <= 0
 LtD(x, y) == CmpD(x, y) < 0
 Small(x) == x[2] < 16384 /\ \A i \in 3..ND : x[i] = 0           \* below 2^30: fits a TLC integer
 IntOf(x) == x[1] + B * x[2]
-Low(x, k) == [i \in 1..ND |-> IF i <= k THEN x[i] ELSE 0]       \* x modulo 2^(16k)
+Low(x, k) == Tup([i \in 1..ND |-> IF i <= k THEN x[i] ELSE 0])  \* x modulo 2^(16k)
 Fits(x, k) == \A i \in (k + 1)..ND : x[i] = 0                   \* x < 2^(16k)
 
 \* ------------------------------------------------------------------ operand classes
 VC == {"0", "1", "31", "32", "33", "N-1", "N", "N+1", "2^32-1", "2^32", "2^63", "2^64-1", "2^64", "2^64+1", "2^128", "2^255", "2^256-1"}
-Val(c, n) ==
+\* (a constant table: evaluated once)
+ValTab == [c \in VC \ {"N-1", "N", "N+1"} |->
   CASE c = "0" -> Zero [] c = "1" -> FromInt(1) [] c = "31" -> FromInt(31) [] c = "32" -> FromInt(32) [] c = "33" -> FromInt(33)
-    [] c = "N-1" -> FromInt(n - 1) [] c = "N" -> FromInt(n) [] c = "N+1" -> FromInt(n + 1)
     [] c = "2^32-1" -> Ones(2) [] c = "2^32" -> Pow2(32) [] c = "2^63" -> Pow2(63) [] c = "2^64-1" -> Ones(4)
     [] c = "2^64" -> Pow2(64) [] c = "2^64+1" -> AddD(Pow2(64), FromInt(1))
-    [] c = "2^128" -> Pow2(128) [] c = "2^255" -> Pow2(255) [] c = "2^256-1" -> Ones(16)
+    [] c = "2^128" -> Pow2(128) [] c = "2^255" -> Pow2(255) [] c = "2^256-1" -> Ones(16)]
+Val(c, n) == CASE c = "N-1" -> FromInt(n - 1) [] c = "N" -> FromInt(n) [] c = "N+1" -> FromInt(n + 1) [] OTHER -> ValTab[c]
 ClassOK(c, n) == c \in VC /\ (c = "N-1" => n > 0)
 \* addresses: returner contract, data contract, the same with bit 160 set (an address is the value modulo 2^160), the
 \* sender (no code), the program itself, an account that never existed, the zero address, precompiles, all ones
@@ -63,9 +113,11 @@ LogOps == {"LOG0", "LOG1", "LOG2", "LOG3", "LOG4"}
 Call7 == {"CALL", "CALLCODE"}
 Call6 == {"DELEGATECALL", "STATICCALL"}
 CallOps == Call7 \cup Call6
-Arith2 == {"ADD", "MUL", "SUB", "DIV", "SDIV", "MOD", "SMOD", "EXP", "SIGNEXTEND", "BYTE", "SHL", "SHR", "SAR"}
+Arith1 == {"ISZERO", "NOT", "BLOCKHASH"}
+Arith2 == {"ADD", "MUL", "SUB", "DIV", "SDIV", "MOD", "SMOD", "EXP", "SIGNEXTEND", "BYTE", "SHL", "SHR", "SAR",
+           "LT", "GT", "SLT", "SGT", "EQ", "AND", "OR", "XOR"}
 Arith3 == {"ADDMOD", "MULMOD"}
-ArithOps == Arith2 \cup Arith3 \cup {"BLOCKHASH"}
+ArithOps == Arith1 \cup Arith2 \cup Arith3
 AllOps == CopyOps \cup LogOps \cup CallOps \cup ArithOps \cup
           {"CALLDATALOAD", "MLOAD", "MSTORE", "MSTORE8", "SHA3", "RETURN", "REVERT", "CREATE", "JUMP", "JUMPI", "SLOAD", "SSTORE",
            "BALANCE", "EXTCODESIZE", "SELFDESTRUCT"}
@@ -85,7 +137,7 @@ Roles(op) ==
     [] op \in Call6 -> <<"gas", "addr", "moff", "len", "moff", "len">>
     [] op = "JUMP" -> <<"jdest">>
     [] op = "JUMPI" -> <<"jdest", "word">>
-    [] op \in {"SLOAD", "BLOCKHASH"} -> <<"word">>
+    [] op \in {"SLOAD"} \cup Arith1 -> <<"word">>
     [] op = "SSTORE" -> <<"word", "word">>
     [] op \in {"BALANCE", "EXTCODESIZE", "SELFDESTRUCT"} -> <<"addr">>
     [] op \in Arith2 -> <<"word", "word">>
@@ -127,7 +179,8 @@ End(r) == IF r[2] = Zero THEN Zero ELSE AddD(r[1], r[2])
 \* of a block buys them.  No tuple lies in between (design invariant RangesDecided).
 MemCap == 4096
 Affordable(e) == Small(e) /\ IntOf(e) <= MemCap
-Unaffordable(e) == LeqD(Ones(2), e)
+TwoTo32Less1 == Ones(2)
+Unaffordable(e) == LeqD(TwoTo32Less1, e)
 MemFail(op, v) == \E r \in Ranges(op, v) : Unaffordable(End(r))
 MemFine(op, v) == \A r \in Ranges(op, v) : Affordable(End(r))
 Ceil32(n) == ((n + 31) \div 32) * 32
@@ -187,7 +240,7 @@ ExpRes(op, cls, v, env) ==
     [] op = "JUMPI" -> IF v[2] = Zero THEN Res11 ELSE Res22
     [] op = "EXTCODESIZE" -> FromInt(env.nx)
     [] OTHER -> Zero
-Word(d) == [i \in 1..ND |-> IF i <= Len(d) THEN d[i] ELSE 0]    \* a logged result word (16 digits)
+Word(d) == Append(d, 0)                                         \* a logged result word (16 digits)
 
 \* ------------------------------------------------------------------ the arithmetic a careless implementation uses
 \* (negative controls of the design run: each model must DISAGREE with InBounds on some enumerated tuple)
@@ -198,6 +251,9 @@ BoundsModel(model, off, len, n) ==
     [] model = "wrap256" -> LeqD(Low(AddD(off, len), 16), FromInt(n))                                  \* sum modulo 2^256
     [] model = "trunc32" -> LeqD(Low(AddD(Low(off, 2), Low(len, 2)), 2), FromInt(n))                   \* 32-bit arithmetic
     [] model = "offonly" -> LeqD(off, FromInt(n))                                                      \* offset checked, sum not
+\* pairs of powers of two whose product leaves a word of 2^k although both fit it (sizes are multiplied by gas prices, words are squared)
+Exp2(c) == CASE c = "1" -> 0 [] c = "32" -> 5 [] c = "2^32" -> 32 [] c = "2^63" -> 63 [] c = "2^64" -> 64 [] c = "2^128" -> 128 [] c = "2^255" -> 255 [] OTHER -> -1
+ProductWrapPairs(k) == {p \in VC \X VC : Exp2(p[1]) >= 0 /\ Exp2(p[2]) >= 0 /\ Exp2(p[1]) < k /\ Exp2(p[2]) < k /\ Exp2(p[1]) + Exp2(p[2]) >= k}
 \* pairs of classes whose exact sum leaves the word although both operands fit it
 WrapPairs(k, n) == {p \in VC \X VC : /\ ClassOK(p[1], n) /\ ClassOK(p[2], n) /\ Fits(Val(p[1], n), k) /\ Fits(Val(p[2], n), k)
                                      /\ ~Fits(AddD(Val(p[1], n), Val(p[2], n)), k)}
